@@ -520,7 +520,7 @@ func runR056(c *core.Ctx) {
 		if d.Body == nil || d.Recv != nil {
 			continue
 		}
-		hasMake, hasRange, returnsNew := false, false, false
+		hasMake, hasRange, returnsNew, returnsOther := false, false, false, false
 		var newObj types.Object
 		ast.Inspect(d.Body, func(n ast.Node) bool {
 			switch x := n.(type) {
@@ -548,11 +548,13 @@ func runR056(c *core.Ctx) {
 			case *ast.ReturnStmt:
 				if len(x.Results) == 1 && core.ObjOf(inf, x.Results[0]) == newObj && newObj != nil {
 					returnsNew = true
+				} else {
+					returnsOther = true // e.g. the argument itself on an "empty, nothing to copy" shortcut: shared with the original
 				}
 			}
 			return true
 		})
-		if hasMake && hasRange && returnsNew {
+		if hasMake && hasRange && returnsNew && !returnsOther {
 			if f, ok := inf.Defs[d.Name].(*types.Func); ok {
 				freshHelpers[f] = true
 				c.OK(rel, core.DeclName(d), "allocates a new map and copies every entry", d.Pos(), "discovered copy helper")
